@@ -709,7 +709,7 @@ def gen_queue_send(sd):
 
 # ---- sd.py: ServiceAnnouncer.handle_findservice, ServiceInstance.matches_find / _answer_find (C12) ----
 def src_norm(node):
-    return ast.dump(node, annotate_fields=False, include_attributes=False)
+    return ast.dump(node, annotate_fields=False, include_attributes=False).replace("Store()", "Load()").replace("Del()", "Load()")
 
 
 def expect_src(node, text, what):
@@ -781,6 +781,127 @@ def gen_find_answer(sd):
             self._send_offer(remote)
         """, "_answer_find")
     out.append("Definition gen_answer_find (can_answer : bool) : list fact :=\n  if can_answer then (FSendOffer :: []) else [].\n")
+    return out
+
+
+# ---- sd.py: ServiceDiscoveryProtocol.message_received / reboot_detected / connection_lost (C03, C07, C06) ----
+def gen_protocol_entry(sd):
+    out = []
+    P = sd.ServiceDiscoveryProtocol
+    f = fn_ast(P.message_received)
+    if [a.arg for a in f.args.args] != ["self", "someip_message", "addr", "multicast"]:
+        raise Abort("message_received: unexpected parameters")
+    b = [s for s in body_of(f) if not is_noise(s)]
+    if len(b) == 6 and isinstance(b[5], ast.If) and dotted(b[5].test) == "rest" and all(is_noise(s) for s in b[5].body) and not b[5].orelse:
+        b = b[:5]          # "if rest: log"
+    if len(b) != 5:
+        raise Abort("message_received: expected five statements")
+    g = b[0]
+    if not (isinstance(g, ast.If) and not g.orelse and [s for s in g.body if not is_noise(s)] and isinstance([s for s in g.body if not is_noise(s)][0], ast.Return)):
+        raise Abort("message_received: expected the non-SD guard")
+    expect_src(ast.Expr(g.test), """
+        (someip_message.service_id != someip.header.SD_SERVICE
+         or someip_message.method_id != someip.header.SD_METHOD
+         or someip_message.interface_version != someip.header.SD_INTERFACE_VERSION
+         or someip_message.return_code != someip.header.SOMEIPReturnCode.E_OK
+         or someip_message.message_type != someip.header.SOMEIPMessageType.NOTIFICATION)
+        """, "message_received (guard)")
+    t = b[1]
+    ok = (isinstance(t, ast.Try) and len(t.body) == 1 and len(t.handlers) == 1 and not t.orelse and not t.finalbody
+          and [s for s in t.handlers[0].body if not is_noise(s)] and isinstance([s for s in t.handlers[0].body if not is_noise(s)][0], ast.Return))
+    if not ok:
+        raise Abort("message_received: expected try: parse / except: return")
+    expect_src(t.body[0], "sdhdr, rest = someip.header.SOMEIPSDHeader.parse(someip_message.payload)", "message_received (parse)")
+    expect_src(ast.Expr(t.handlers[0].type), "(someip.header.ParseError, UnicodeDecodeError)", "message_received (except)")
+    expect_src(b[2], """
+        if self.session_storage.check_received(addr, multicast, sdhdr.flag_reboot, someip_message.session_id):
+            self.reboot_detected(addr)
+        """, "message_received (session)")
+    expect_src(b[3], "sdhdr_resolved = sdhdr.resolve_options()", "message_received (resolve)")
+    expect_src(b[4], "self.sd_message_received(sdhdr_resolved, addr, multicast)", "message_received (dispatch)")
+    out.append("Definition gen_message_received (is_sd parses reboot : bool) : list mact :=\n"
+               "  if negb is_sd then [] else if negb parses then [] else\n"
+               "  (MSession :: (if reboot then (MReboot :: []) else [])) ++ (MResolveDispatch :: []).\n")
+    f = fn_ast(P.reboot_detected)
+    b = [s for s in body_of(f) if not is_noise(s)]
+    if [a.arg for a in f.args.args] != ["self", "addr"] or len(b) != 3:
+        raise Abort("reboot_detected: unexpected shape")
+    expect_src(b[0], "self.announcer.reboot_detected(addr)", "reboot_detected (1)")
+    expect_src(b[1], "asyncio.get_event_loop().call_soon(self.subscriber.reboot_detected, addr)", "reboot_detected (2)")
+    expect_src(b[2], "asyncio.get_event_loop().call_soon(self.discovery.reboot_detected, addr)", "reboot_detected (3)")
+    # ServiceSubscriber.reboot_detected does nothing: the model queues no handle for it
+    f2 = fn_ast(sd.ServiceSubscriber.reboot_detected)
+    b2 = [s for s in body_of(f2) if not is_noise(s)]
+    if not (len(b2) == 1 and isinstance(b2[0], ast.Pass)):
+        raise Abort("ServiceSubscriber.reboot_detected is expected to do nothing")
+    out.append("Definition gen_reboot_detected : list ract := RAnnouncerNow :: RSoonSubscriberNoop :: RSoonDiscovery :: [].\n")
+    f = fn_ast(P.connection_lost)
+    b = [s for s in body_of(f) if not is_noise(s)]
+    b = [s for s in b if not (isinstance(s, ast.Assign) and getattr(s.targets[0], "id", None) == "log")
+         and not (isinstance(s, ast.Expr) and isinstance(s.value, ast.Call) and getattr(s.value.func, "id", None) == "log")]
+    if [a.arg for a in f.args.args] != ["self", "exc"] or len(b) != 3:
+        raise Abort("connection_lost: unexpected shape")
+    for st, who in zip(b, ("subscriber", "discovery", "announcer")):
+        expect_src(st, f"asyncio.get_event_loop().call_soon(self.{who}.connection_lost, exc)", "connection_lost")
+    out.append("Definition gen_connection_lost : list ract := LSoonSubscriber :: LSoonDiscovery :: LSoonAnnouncer :: [].\n")
+    return out
+
+
+# ---- sd.py: ServiceDiscoveryProtocol.send_sd / start / stop (C08, C15) ----
+def kw_of(call, name):
+    for k in call.keywords:
+        if k.arg == name:
+            return k.value
+    raise Abort("missing keyword " + name)
+
+
+def gen_send_sd(sd):
+    out = []
+    P = sd.ServiceDiscoveryProtocol
+    f = fn_ast(P.send_sd)
+    b = [s for s in body_of(f) if not is_noise(s)]
+    if [a.arg for a in f.args.args] != ["self", "entries", "remote"] or len(b) != 6:
+        raise Abort("send_sd: unexpected shape")
+    expect_src(b[0], """
+        if not entries:
+            return
+        """, "send_sd (empty)")
+    expect_src(b[1], "flag_reboot, session_id = self.session_storage.assign_outgoing(remote)", "send_sd (session)")
+    m = b[2]
+    if not (isinstance(m, ast.Assign) and getattr(m.targets[0], "id", None) == "msg" and isinstance(m.value, ast.Call)
+            and dotted(m.value.func) == "someip.header.SOMEIPSDHeader" and not m.value.args and sorted(k.arg for k in m.value.keywords) == ["entries", "flag_reboot", "flag_unicast"]):
+        raise Abort("send_sd: unexpected SD header")
+    if getattr(kw_of(m.value, "flag_reboot"), "id", None) != "flag_reboot" or src_norm(kw_of(m.value, "entries")) != src_norm(ast.parse("tuple(entries)").body[0].value):
+        raise Abort("send_sd: unexpected SD header fields")
+    fu = kw_of(m.value, "flag_unicast")
+    if not (isinstance(fu, ast.Constant) and isinstance(fu.value, bool)):
+        raise Abort("send_sd: flag_unicast is not a constant")
+    expect_src(b[3], "msg_assigned = msg.assign_option_indexes()", "send_sd (indexes)")
+    h = b[4]
+    if not (isinstance(h, ast.Assign) and getattr(h.targets[0], "id", None) == "hdr" and isinstance(h.value, ast.Call) and dotted(h.value.func) == "someip.header.SOMEIPHeader"
+            and not h.value.args and sorted(k.arg for k in h.value.keywords) == ["client_id", "interface_version", "message_type", "method_id", "payload", "service_id", "session_id"]):
+        raise Abort("send_sd: unexpected SOME/IP header")
+    for name, want in (("service_id", "someip.header.SD_SERVICE"), ("method_id", "someip.header.SD_METHOD"), ("message_type", "someip.header.SOMEIPMessageType.NOTIFICATION")):
+        if dotted(kw_of(h.value, name)) != want:
+            raise Abort("send_sd: unexpected " + name)
+    if getattr(kw_of(h.value, "session_id"), "id", None) != "session_id" or src_norm(kw_of(h.value, "payload")) != src_norm(ast.parse("msg_assigned.build()").body[0].value):
+        raise Abort("send_sd: unexpected session id / payload")
+    cid, iv = kw_of(h.value, "client_id"), kw_of(h.value, "interface_version")
+    if not all(isinstance(x, ast.Constant) and isinstance(x.value, int) and not isinstance(x.value, bool) for x in (cid, iv)):
+        raise Abort("send_sd: client id / interface version are not constants")
+    expect_src(b[5], "self.send(hdr.build(), remote)", "send_sd (send)")
+    out.append("Definition gen_send_sd (no_entries : bool) : list sdact :=\n  if no_entries then [] else (SAssignSession :: SBuildSend :: []).\n")
+    out.append(f"Definition gen_sd_flag_unicast : bool := {'true' if fu.value else 'false'}.\n")
+    out.append(f"Definition gen_sd_client_id : N := {cid.value}.\n")
+    out.append(f"Definition gen_sd_interface_version : N := {iv.value}.\n")
+    for name, order in (("start", ["subscriber", "announcer", "discovery"]), ("stop", ["discovery", "announcer", "subscriber"])):
+        f = fn_ast(getattr(P, name))
+        b = [s for s in body_of(f) if not is_noise(s)]
+        if len(b) != 3:
+            raise Abort(name + ": unexpected shape")
+        for st, who in zip(b, order):
+            expect_src(st, f"self.{who}.{name}()", "protocol " + name)
+        out.append(f"Definition gen_proto_{name} : list pact := " + " :: ".join("P" + w.capitalize() for w in order) + " :: [].\n")
     return out
 
 
@@ -890,13 +1011,86 @@ def gen_service(svc):
             + "\n".join(lines) + "\n"]
 
 
+# ---- service.py: SimpleService.client_subscribed / SimpleEventgroup.subscribe / unsubscribe (C17) ----
+def gen_eventgroup_subscription(svc):
+    out = []
+    f = fn_ast(svc.SimpleService.client_subscribed)
+    b = body_of(f)
+    if [a.arg for a in f.args.args] != ["self", "subscription", "source"] or len(b) != 1 or not isinstance(b[0], ast.Try):
+        raise Abort("client_subscribed: unexpected shape")
+    t = b[0]
+    # except Exception -> NakSubscription: every failure inside is a refusal
+    hb = [s for s in t.handlers[0].body if not is_noise(s)] if len(t.handlers) == 1 else []
+    if len(t.handlers) != 1 or getattr(t.handlers[0].type, "id", "") != "Exception" or t.orelse or t.finalbody or len(hb) != 1:
+        raise Abort("client_subscribed: unexpected handler")
+    expect_src(hb[0], "raise sd.NakSubscription from exc", "client_subscribed (handler)")
+    tb = [s for s in t.body if not is_noise(s)]
+    if len(tb) != 5:
+        raise Abort("client_subscribed: expected five statements in the try block")
+    expect_src(tb[0], "evgrp = self.eventgroups.get(subscription.id)", "client_subscribed (lookup)")
+    if not (isinstance(tb[1], ast.Assert) and getattr(tb[1].test, "id", None) == "evgrp"):
+        raise Abort("client_subscribed: expected 'assert evgrp'")
+    g = tb[2]
+    gb = [s for s in g.body if not is_noise(s)] if isinstance(g, ast.If) else []
+    if not (isinstance(g, ast.If) and not g.orelse and len(gb) == 1):
+        raise Abort("client_subscribed: expected the endpoint-count guard")
+    expect_src(gb[0], "raise sd.NakSubscription", "client_subscribed (refusal)")
+    c = g.test
+    if not (isinstance(c, ast.Compare) and len(c.ops) == 1 and isinstance(c.ops[0], ast.NotEq) and src_norm(c.left) == src_norm(ast.parse("len(subscription.endpoints)").body[0].value)
+            and isinstance(c.comparators[0], ast.Constant) and isinstance(c.comparators[0].value, int)):
+        raise Abort("client_subscribed: unexpected endpoint-count test")
+    expect_src(tb[3], "ep = next(iter(subscription.endpoints))", "client_subscribed (endpoint)")
+    expect_src(tb[4], "evgrp.subscribe(ep)", "client_subscribed (subscribe)")
+    out.append("Definition gen_client_subscribed_accepts (known_eventgroup : bool) (n_endpoints : N) : bool :=\n"
+               f"  known_eventgroup && negb (negb (n_endpoints =? {c.comparators[0].value})).\n")
+    # SimpleEventgroup.subscribe: counter += 1, has_clients.set(), initial notification of ALL values
+    f = fn_ast(svc.SimpleEventgroup.subscribe)
+    b = body_of(f)
+    if [a.arg for a in f.args.args] != ["self", "endpoint"] or len(b) != 3:
+        raise Abort("SimpleEventgroup.subscribe: unexpected shape")
+    a0 = b[0]
+    if not (isinstance(a0, ast.AugAssign) and isinstance(a0.op, ast.Add) and src_norm(a0.target) == src_norm(ast.parse("self.subscribed_endpoints[endpoint]").body[0].value)
+            and isinstance(a0.value, ast.Constant) and isinstance(a0.value.value, int)):
+        raise Abort("SimpleEventgroup.subscribe: unexpected counter update")
+    expect_src(b[1], "self.has_clients.set()", "SimpleEventgroup.subscribe (has_clients)")
+    expect_src(b[2], 'asyncio.create_task(self._notify_single(endpoint, events=self.values.keys(), label="initial"))', "SimpleEventgroup.subscribe (initial)")
+    out.append(f"Definition gen_eg_subscribe_count (count : N) : N := count + {a0.value.value}.\n")
+    # SimpleEventgroup.unsubscribe
+    f = fn_ast(svc.SimpleEventgroup.unsubscribe)
+    b = body_of(f)
+    if [a.arg for a in f.args.args] != ["self", "endpoint"] or len(b) != 4:
+        raise Abort("SimpleEventgroup.unsubscribe: unexpected shape")
+    expect_src(b[0], """
+        if endpoint not in self.subscribed_endpoints:
+            raise KeyError(endpoint)
+        """, "unsubscribe (unknown)")
+    a1 = b[1]
+    if not (isinstance(a1, ast.AugAssign) and isinstance(a1.op, ast.Sub) and src_norm(a1.target) == src_norm(ast.parse("self.subscribed_endpoints[endpoint]").body[0].value)
+            and isinstance(a1.value, ast.Constant) and isinstance(a1.value.value, int)):
+        raise Abort("SimpleEventgroup.unsubscribe: unexpected counter update")
+    d = b[2]
+    if not (isinstance(d, ast.If) and not d.orelse and len(d.body) == 1 and isinstance(d.test, ast.Compare) and len(d.test.ops) == 1 and isinstance(d.test.ops[0], ast.LtE)
+            and src_norm(d.test.left) == src_norm(ast.parse("self.subscribed_endpoints[endpoint]").body[0].value)
+            and isinstance(d.test.comparators[0], ast.Constant) and isinstance(d.test.comparators[0].value, int)):
+        raise Abort("SimpleEventgroup.unsubscribe: unexpected removal test")
+    expect_src(d.body[0], "del self.subscribed_endpoints[endpoint]", "unsubscribe (del)")
+    expect_src(b[3], """
+        if not self.subscribed_endpoints:
+            self.has_clients.clear()
+        """, "unsubscribe (has_clients)")
+    out.append("(* None: KeyError; Some None: the endpoint is removed; Some (Some c): it stays with count c.  The count is at least 1 while present *)\n"
+               "Definition gen_eg_unsubscribe (present : bool) (count : N) : option (option N) :=\n"
+               f"  if negb present then None else let c := count - {a1.value.value} in if c <=? {d.test.comparators[0].value} then Some None else Some (Some c).\n")
+    return out
+
+
 def main():
     out_path = sys.argv[1]
     try:
         import someip.config as cfg
         import someip.sd as sd
         import someip.service as svc
-        parts = gen_matchers(cfg) + gen_check_received(sd) + gen_assign_outgoing(sd) + gen_skeletons(sd) + gen_inst_subscribe(sd) + gen_subscriber(sd) + gen_timed_store(sd) + gen_queue_send(sd) + gen_find_answer(sd) + gen_service(svc)
+        parts = gen_matchers(cfg) + gen_check_received(sd) + gen_assign_outgoing(sd) + gen_skeletons(sd) + gen_inst_subscribe(sd) + gen_subscriber(sd) + gen_timed_store(sd) + gen_queue_send(sd) + gen_find_answer(sd) + gen_protocol_entry(sd) + gen_send_sd(sd) + gen_service(svc) + gen_eventgroup_subscription(svc)
     except Abort as exc:
         print("gen_logic: ABORT:", exc)
         return 2
